@@ -6,8 +6,12 @@
 //
 // TRUSTED: these models stand for the hardware in every aes.armv8 obligation.  This x86-64 host can neither compile
 // `core::arch::aarch64` nor execute the instructions, so (unlike intrinsics/x86_aes.rs) there is no self-test against
-// real silicon; the only anchors are (a) the transcription below, to be reviewed against the manual, and (b) the
-// FIPS-197 Appendix A/B/C vectors pushed through the real armv8 code + these models (obligation a64_kat).
+// real silicon, and the manual is not available in this (offline) sandbox: the pseudocode quoted below was written
+// down from the manual's known text and must be REVIEWED against DDI 0487 (sections C7.2 AESE/AESD/AESMC/AESIMC and
+// shared/functions/crypto AESShiftRows etc.).  Anchors that do exist: (a) a compile-time check that the quoted byte
+// permutations are exactly FIPS-197 (Inv)ShiftRows on the layout "register byte i = in[i]"; (b) the FIPS-197
+// Appendix C.1-C.3 vectors pushed through the real armv8 code + these models (obligation aes.armv8.a64_kat): a model
+// with a different byte order, a missing/extra MixColumns, or the key added on the wrong side of SubBytes fails them.
 //
 // The shadow copies of the armv8 sources import this module in place of `core::arch::aarch64::*` (see the @shadow
 // directives in contracts/aes/armv8.rs), so the names and signatures below are those of core::arch::aarch64.
